@@ -9,6 +9,7 @@
    loop, re-poll, cancel at the await point, try_recv, drop). *)
 From SV Require Import Base.Prelude Model.Sched Model.MergeChan Proofs.MergeChan_proofs Proofs.MergeChan_thms.
 From SV Require Import Model.MetaUpdate Proofs.MetaUpdate_proofs Model.ClusterLoop Proofs.ClusterLoop_proofs.
+From SV Require Import Model.FetchPlan Proofs.FetchPlan_proofs.
 From Coq Require Import Permutation.
 Open Scope N_scope.
 
@@ -207,7 +208,71 @@ Theorem C19_loop_eventually : forall s, reachable wstep w_init s ->
     Permutation (w_use_answered s') (w_use_requested s) /\ w_refresh_answered s' = w_refresh_requested s.
 Proof. exact loop_eventually. Qed.
 
+(* ---- the metadata worker's fetch scheduling (Model/FetchPlan.v): FetchPlan, PendingFetches with
+   its starter step and its resolution, and the way a refresh request travels from the request
+   channel to the metadata it is published with.  TIED: the plan bookkeeping (note_full, note_routes, note_topology) and the
+   resolution (resolve) through hook verif_fetch_plan, exactly.  NOT TIED (proved, pinned by a census
+   of start_due_fetches / work_on_cc): the starter step and the worker transitions. ---- *)
+
+(* a due full fetch subsumes all partial work *)
+Theorem C19_plan_full_subsumes : forall p,
+  note_full p = PFull /\ (forall r, note_routes r PFull = PFull) /\ note_topology PFull = PFull.
+Proof. exact full_subsumes. Qed.
+(* the starter step: a full fetch that is owed (or whose deadline passed) starts unless one is running,
+   empties the plan and replaces every running partial fetch; while a full fetch runs nothing starts and
+   the plan keeps what it is owed; otherwise each partial type starts iff owed and its slot is free *)
+Theorem C19_start_due_full : forall d nx fl p, is_full fl = false -> (p = PFull \/ d = true) ->
+  start_due d nx fl p = (IFull nx, plan_empty, nx + 1).
+Proof. exact start_due_full. Qed.
+Theorem C19_start_due_blocked : forall d nx f p, start_due d nx (IFull f) p = (IFull f, p, nx).
+Proof. exact start_due_blocked. Qed.
+
+(* every refresh request ever sent is, in order, answered / pending in the worker / still queued:
+   none is lost, none is answered twice *)
+Theorem C19_fetch_conservation : forall s, reachable fstep f_init s ->
+  map fst (f_answers s) ++ pending_list s ++ f_queue s = f_arrived s.
+Proof. intros s H. apply (fi_cons _ (finv_reachable s H)). Qed.
+
+(* freshness: the metadata a refresh request is answered with was fetched by a fetch that STARTED AFTER
+   the request had been received (so the published state is at least as new as the request) *)
+Theorem C19_fetch_fresh : forall s r f, reachable fstep f_init s -> In (r, AAttached f) (f_answers s) ->
+  exists rs, In (f, rs) (f_started s) /\ In r rs.
+Proof. intros s r f H. apply (fi_fresh _ (finv_reachable s H)). Qed.
+
+(* a received request makes the very next starter step begin a full fetch *)
+Theorem C19_fetch_request_starts_full : forall s r d, reachable fstep f_init s ->
+  f_cc s = OnCC -> f_pending s = Some r -> is_full (f_fl s) = false ->
+  exists s', fstep s (FStarter d) = Some s' /\ f_fl s' = IFull (f_next s) /\ f_plan s' = plan_empty.
+Proof.
+  intros s r d H Hc Hp Hf. pose proof (fi_plan _ (finv_reachable s H) r Hp Hc Hf) as Epl.
+  cbn [fstep]. rewrite Hc, (start_due_full d (f_next s) (f_fl s) (f_plan s) Hf (or_introl Epl)).
+  eexists. split; [reflexivity|]. split; reflexivity.
+Qed.
+
 (* non-vacuity *)
+(* a topology event, then a refresh request while the partial fetch runs: the full fetch preempts it;
+   a second request waits in the channel until the first full fetch is done and gets its own, later, fetch *)
+Example C19_ex_fetch :
+  option_map (fun s => (f_answers s, f_started s, f_queue s, f_fl s, f_plan s))
+    (run fstep f_init [FEvent EvTopology; FStarter false; FSend 7; FSend 8; FRecv; FStarter false;
+                       FEvent (EvRoutes 5); FStarter false; FDone (fun _ => true) true;
+                       FRecv; FStarter false; FDone (fun _ => true) true; FStarter false])
+  = Some ([(7, AAttached 1); (8, AAttached 2)], [(1, [7]); (2, [7; 8])], [], IPartial None None, plan_empty) /\
+  run fstep f_init [FSend 7; FRecv; FStarter false; FSend 8; FRecv] = None /\
+  start_due false 4 (IPartial (Some 1) None) (PPartial [9] true) = (IPartial (Some 1) (Some 4), PPartial [9] false, 5) /\
+  resolve (fun f => f =? 2) (IPartial (Some 1) (Some 2)) = Some (OTopology 2, IPartial (Some 1) None) /\
+  resolve (fun _ => true) (IPartial (Some 1) (Some 2)) = Some (ORoutes 1, IPartial None (Some 2)) /\
+  resolve (fun _ => false) (IFull 3) = None /\
+  note_routes 4 (note_topology (note_routes 2 plan_empty)) = PPartial [2; 4] true.
+Proof. repeat split; vm_compute; reflexivity. Qed.
+(* a failing full fetch: the request survives the loss of the control connection and is answered by
+   the establishment fetch, or with an error if that fails too *)
+Example C19_ex_fetch_fail :
+  option_map f_answers (run fstep f_init [FSend 7; FRecv; FStarter false; FDone (fun _ => true) false; FEstablish true])
+  = Some [(7, AAttached 1)] /\
+  option_map f_answers (run fstep f_init [FSend 7; FRecv; FStarter false; FBroken; FEstablish false; FSend 8; FRecv; FEstablish true])
+  = Some [(7, AErr); (8, AAttached 2)].
+Proof. repeat split; vm_compute; reflexivity. Qed.
 (* requests of both kinds queue up while an update is applied and are all answered afterwards *)
 Example C19_ex_loop :
   option_map (fun s => (w_use_answered s, w_refresh_answered s, w_published s, w_used_ks s, owed s))
@@ -319,3 +384,9 @@ Print Assumptions C19_loop_enabled.
 Print Assumptions C19_loop_decreases.
 Print Assumptions C19_loop_all_answered.
 Print Assumptions C19_loop_eventually.
+Print Assumptions C19_plan_full_subsumes.
+Print Assumptions C19_start_due_full.
+Print Assumptions C19_start_due_blocked.
+Print Assumptions C19_fetch_conservation.
+Print Assumptions C19_fetch_fresh.
+Print Assumptions C19_fetch_request_starts_full.
